@@ -248,7 +248,7 @@ impl<const N: u32> From<&Q32E2> for PxE2<{ N }> {
             //regime length is smaller than length of posit
             let mut bit_n_plus_one = false;
             if reg_a < N {
-                if reg_a <= (N - 4) {
+                if reg_a + 4 <= N {
                     bit_n_plus_one = ((frac64_a >> (shift + 31 - N)) & 0x1) != 0;
                     if (frac64_a << (33 - shift + N)) != 0 {
                         bits_more = true;
